@@ -428,29 +428,44 @@ theorem specDecodeDLBA_mirror (vs : List (List Nat)) (tail : List Nat) (h : ∀ 
     exact h v hv)]
   exact splitLens_flatten vs tail
 
-theorem offsetsFrom_head (o : Nat) (vs : List (List Nat)) :
-    ∃ t, offsetsFrom o vs = o :: t := by
-  cases vs <;> simp [offsetsFrom]
+theorem le_lastOff : ∀ (rest : List Nat) (o : Nat), nondecreasing (o :: rest) = true → o ≤ lastOff o rest
+  | [], _, _ => by simp [lastOff]
+  | b :: r, o, h => by
+    simp only [nondecreasing, Bool.and_eq_true, decide_eq_true_eq] at h
+    have := le_lastOff r b h.2
+    simp only [lastOff]; omega
 
-theorem offsetsFrom_lengths : ∀ (vs : List (List Nat)) (o : Nat),
-    ((offsetsFrom o vs).zip (offsetsFrom o vs).tail).map (fun ab => BitVec.ofNat 32 (ab.2 - ab.1))
-      = vs.map (fun v => BitVec.ofNat 32 v.length)
-  | [], o => by simp [offsetsFrom]
-  | v :: vs, o => by
-    obtain ⟨t, ht⟩ := offsetsFrom_head (o + v.length) vs
-    have ih := offsetsFrom_lengths vs (o + v.length)
-    simp only [offsetsFrom, List.tail_cons, List.map_cons] at ih ⊢
-    rw [ht] at ih ⊢
-    simp only [List.zip_cons_cons, List.map_cons, List.tail_cons] at ih ⊢
-    rw [ih]
-    simp
+/-- For a non-decreasing offsets list inside `src`: the offset differences are the lengths of the
+window values, and the window values concatenate to `src[offsets[0]:offsets[n]]`. -/
+theorem window_facts (src : List Nat) : ∀ (rest : List Nat) (o : Nat), nondecreasing (o :: rest) = true →
+    lastOff o rest ≤ src.length →
+    (((o :: rest).zip rest).map (fun ab => BitVec.ofNat 32 (ab.2 - ab.1))
+        = (windowValues src (o :: rest)).map (fun v => BitVec.ofNat 32 v.length)) ∧
+    (windowValues src (o :: rest)).flatten = (src.drop o).take (lastOff o rest - o)
+  | [], o, _, _ => by simp [windowValues, lastOff]
+  | b :: r, o, h, hl => by
+    have hle := le_lastOff (b :: r) o h
+    simp only [nondecreasing, Bool.and_eq_true, decide_eq_true_eq] at h
+    have hb := le_lastOff r b h.2
+    simp only [lastOff] at hl hle ⊢
+    obtain ⟨ih1, ih2⟩ := window_facts src r b h.2 hl
+    simp only [windowValues, List.tail_cons, List.zip_cons_cons, List.map_cons, List.flatten_cons] at ih1 ih2 ⊢
+    refine ⟨?_, ?_⟩
+    · rw [ih1]
+      congr 2
+      simp only [List.length_take, List.length_drop]; omega
+    · rw [ih2]
+      have e : lastOff b r - o = (b - o) + (lastOff b r - b) := by omega
+      rw [e, List.take_add, List.drop_drop]
+      have : o + (b - o) = b := by omega
+      rw [this]
 
-/-- with a full window (offsets from 0 covering all of `src`) the raw Go entry point is the list mirror -/
-theorem mirrorEncodeDLBARaw_full (vs : List (List Nat)) :
-    mirrorEncodeDLBARaw vs.flatten (offsetsFrom 0 vs) = mirrorEncodeDLBA vs := by
-  obtain ⟨t, ht⟩ := offsetsFrom_head 0 vs
-  have hne : (offsetsFrom 0 vs).isEmpty = false := by rw [ht]; rfl
-  simp only [mirrorEncodeDLBARaw, hne, Bool.false_eq_true, if_false, offsetsFrom_lengths, mirrorEncodeDLBA]
+/-- on well-formed `(src, offsets)` the raw Go entry point is the list mirror applied to the window values -/
+theorem mirrorEncodeDLBARaw_eq (src : List Nat) (o : Nat) (rest : List Nat)
+    (hm : nondecreasing (o :: rest) = true) (hl : lastOff o rest ≤ src.length) :
+    mirrorEncodeDLBARaw src (o :: rest) = mirrorEncodeDLBA (windowValues src (o :: rest)) := by
+  obtain ⟨h1, h2⟩ := window_facts src rest o hm hl
+  simp only [mirrorEncodeDLBARaw, mirrorEncodeDLBA, h1, h2]
 
 theorem commonPrefix_le : ∀ (a b : List Nat), commonPrefix a b ≤ a.length ∧ commonPrefix a b ≤ b.length
   | [], _ => by simp [commonPrefix]
